@@ -53,10 +53,11 @@ fn fragments() -> &'static [&'static str; 10] {
 const UNK: &str = "<unk>";
 const PAD: &str = "<pad>";
 
-/// prefix / suffix lists, including lists of different lengths
+/// prefix / suffix lists, including lists of different lengths and lists of several *different*
+/// tokens (their order must be kept)
 fn affixes() -> [(Vec<&'static str>, Vec<&'static str>); 4] {
     let [_, bos, eos, pad] = *specials();
-    [(vec![], vec![]), (vec![bos], vec![eos]), (vec![bos, bos], vec![eos]), (vec![], vec![eos, pad])]
+    [(vec![], vec![]), (vec![bos], vec![eos]), (vec![bos, pad], vec![eos]), (vec![], vec![eos, pad])]
 }
 
 // ---------------------------------------------------------------------------------------------
